@@ -329,4 +329,61 @@ theorem C15_E1_witness :
     ezAll writtenOrder = .ok [⟨0, 1, 2, 3, true⟩] ∧ ezAll reversedOrder = .ok [⟨1, 0, 3, 2, false⟩] := by
   constructor <;> decide +kernel
 
+/-! ### E3 on the model: the slash mark goes with the removed copy of a shared atom -/
+
+def atomP (k : Key) (el : String) (f : Nat) : Atom := { key := k, element := el.toList, fragid := [f] }
+
+/-- `{[#B][#A]}.{#A=F/C=C[!]/Cl,#B=[!]CBr}` after connection (hydrogens left out): the unmarked copy of the shared atom
+    (key 0, fragment B) is kept, the marked one (key 4, an atom of the double bond) is removed -/
+def sharedBA : Mol :=
+  { atoms := [atomP 0 "C" 0, atomP 1 "Br" 0, atomX 2 "F" 1, atomC 3 1, atomC 4 1, atomX 5 "Cl" 1],
+    edges := [⟨0, 1, 2, none⟩, ⟨2, 3, 2, none⟩, ⟨3, 4, 4, none⟩, ⟨4, 5, 2, none⟩, ⟨0, 4, 2, some ("!1".toList, "!1".toList)⟩] }
+/-- `{[#A][#B]}.{#A=F/C=C[!]/Cl,#B=[!]CBr}`: the same fragments, listed the other way round -/
+def sharedAB : Mol :=
+  { atoms := [atomX 0 "F" 0, atomC 1 0, atomC 2 0, atomX 3 "Cl" 0, atomP 4 "C" 1, atomP 5 "Br" 1],
+    edges := [⟨0, 1, 2, none⟩, ⟨1, 2, 4, none⟩, ⟨2, 3, 2, none⟩, ⟨4, 5, 2, none⟩, ⟨2, 4, 2, some ("!1".toList, "!1".toList)⟩] }
+
+/-- one written molecule, two fragment orders: a geometry, or "dangling E/Z token" (finding E3) -/
+theorem C15_E3_witness :
+    ezAll (squash sharedAB) = .ok [⟨0, 1, 2, 3, true⟩] ∧ ezAll (squash sharedBA) = .error PyErr.value ∧
+    ((squash sharedBA).atoms.map fun a => (a.key, a.extra.length)) = [(0, 0), (1, 0), (2, 1), (3, 1), (5, 1)] := by
+  refine ⟨?_, ?_, ?_⟩ <;> decide +kernel
+
+/-- the mechanism, for every molecule: the atom kept by a contraction has exactly the free attributes (slash marks
+    included) it had before — nothing the removed copy carried is handed over except memberships and template
+    positions (`C10_membership`) -/
+theorem C15_E3_marks_not_transferred (mol : Mol) (keep rem : Key) (hne : keep ≠ rem) (b : Atom)
+    (hb : b ∈ (contract mol keep rem).atoms) (hbk : b.key = keep) :
+    ∃ k ∈ mol.atoms, k.key = keep ∧ b.extra = k.extra ∧ b.element = k.element := by
+  unfold contract at hb
+  have hmoved : ∀ (inc : List Edge) (rest : Mol), (inc.foldl (moveStep keep rem) rest).atoms = rest.atoms := by
+    intro inc
+    induction inc with
+    | nil => intro rest; rfl
+    | cons e es ih =>
+      intro rest
+      simp only [List.foldl_cons]
+      rw [ih]
+      unfold moveStep
+      dsimp only
+      split
+      · split <;> (try rfl) <;> (split <;> rfl)
+      · split <;> (try rfl) <;> (split <;> rfl)
+  cases hr : mol.atom? rem with
+  | none =>
+    rw [hr] at hb
+    simp only [hmoved] at hb
+    obtain ⟨h1, _⟩ := List.mem_filter.mp hb
+    exact ⟨b, h1, hbk, rfl, rfl⟩
+  | some r =>
+    rw [hr] at hb
+    simp only [Mol.updAtom, hmoved, List.mem_map] at hb
+    obtain ⟨k, hk, rfl⟩ := hb
+    obtain ⟨h1, _⟩ := List.mem_filter.mp hk
+    by_cases hkk : (k.key == keep) = true
+    · simp only [hkk, if_true] at hbk ⊢
+      exact ⟨k, h1, by simpa using hkk, rfl, rfl⟩
+    · simp only [hkk, Bool.false_eq_true, if_false] at hbk ⊢
+      exact ⟨k, h1, hbk, rfl, rfl⟩
+
 end CGV.C15
